@@ -63,7 +63,7 @@ mc("ctl_noAdopt", inv="", props="MCSignJoins", Defect='"noAdopt"', **NOTAMP, **N
 mc("ctl_noValidateTs", inv="", props="MCSignJoins", Defect='"noValidateTs"', Args="ArgsBad", **NOTAMP, **NONODE)
 mc("ctl_applyOlder", inv="ViewSound", props="", Defect='"applyOlder"', Args="ArgsFetch", Cmds="{1}", Plants="POld", MaxPlant=1, **NOTAMP)
 mc("ctl_D1_view", inv="ViewNewest", props="", Args="ArgsFetch", Plants="PDup", MaxPlant=1, Cmds="{1}", **NOTAMP)
-mc("ctl_D1_api", inv="ViewNewest", props="", Args="ArgsTwoFr", Cmds="{1, 2, 3, 4}", Tampers="TGroups", **NOFAULT)
+mc("ctl_D1_api", inv="ViewNewest", props="", Args="ArgsTwoFrOnly", Cmds="{1, 2, 3, 4}", Tampers="TDesc", **NOFAULT)
 mc("ctl_D1_file", inv="", props="MCFetchWritesGood", Args="ArgsCore", Plants="PDup", MaxPlant=1, **NOTAMP, **NONODE)
 mc("ctl_live_noAdopt", **dict(LIVE, Defect='"noAdopt"'))
 
